@@ -171,7 +171,7 @@ AggValue(it, envs) ==
                                 IN Val(sorted[IF idx >= Len(vs) THEN Len(vs) ELSE idx + 1])
                       [] it.a \in {"variance", "stddev"} ->
                            IF vs = <<>> THEN Val(Null)
-                           ELSE IF ~AllOf(vs, "int") \/ ~IsPow2(Len(vs)) \/ \E i \in 1..Len(vs) : vs[i].b # 0 THEN Unk
+                           ELSE IF ~AllOf(vs, "int") \/ ~IsPow2(Len(vs)) \/ \E i \in 1..Len(vs) : (vs[i].b # 0 \/ vs[i].i > 1000 \/ vs[i].i < -1000) THEN Unk
                            ELSE LET n  == Len(vs)
                                     s  == SumInts(Tail(vs), Head(vs)).i
                                     sq == [i \in 1..n |-> IntV(vs[i].i * vs[i].i)]
